@@ -131,6 +131,16 @@ func init() {
 					valText = c01Value(r, kind, attached)
 					if len(target.Valid) > 0 {
 						valText = r.Pick(target.Valid)
+					} else if kind.IsStr() && r.Chance(1, 10) {
+						// the name of a command of the level: a value like any other text where a value is due
+						var names []string
+						for n := range g.Node().Children {
+							names = append(names, n)
+						}
+						if len(names) > 0 {
+							sortStrings(names)
+							valText = r.Pick(names)
+						}
 					}
 					it.Vals = []string{valText}
 					cls = valueClass(kind, valText)
